@@ -346,15 +346,16 @@ Lemma user_lineBreaker_Write_text_ok : C18gen.user_lineBreaker_Write_text = expe
 Lemma user_lineBreaker_Close_text_ok : C18gen.user_lineBreaker_Close_text = expected_user_lineBreaker_Close_text. Proof. reflexivity. Qed.
 Lemma user_VerifySignature_text_ok : C18gen.user_VerifySignature_text = expected_user_VerifySignature_text. Proof. reflexivity. Qed.
 Lemma user_PublicKey_Verify_text_ok : C18gen.user_PublicKey_Verify_text = expected_user_PublicKey_Verify_text. Proof. reflexivity. Qed.
+Lemma user_PublicKey_VerifyMessage_text_ok : C18gen.user_PublicKey_VerifyMessage_text = expected_user_PublicKey_VerifyMessage_text. Proof. reflexivity. Qed.
 Lemma auth_encryptionResponse_text_ok : C18gen.auth_encryptionResponse_text = expected_auth_encryptionResponse_text. Proof. reflexivity. Qed.
-Lemma auth_Encrypt_text_ok : C18gen.auth_Encrypt_text = expected_auth_Encrypt_text. Proof. reflexivity. Qed.
 Lemma auth_encryptionRequest_text_ok : C18gen.auth_encryptionRequest_text = expected_auth_encryptionRequest_text. Proof. reflexivity. Qed.
-Lemma bot_genEncryptionKeyResponse_text_ok : C18gen.bot_genEncryptionKeyResponse_text = expected_bot_genEncryptionKeyResponse_text. Proof. reflexivity. Qed.
+Lemma auth_Encrypt_text_ok : C18gen.auth_Encrypt_text = expected_auth_Encrypt_text. Proof. reflexivity. Qed.
 Lemma bot_newSymmetricEncryption_text_ok : C18gen.bot_newSymmetricEncryption_text = expected_bot_newSymmetricEncryption_text. Proof. reflexivity. Qed.
+Lemma bot_genEncryptionKeyResponse_text_ok : C18gen.bot_genEncryptionKeyResponse_text = expected_bot_genEncryptionKeyResponse_text. Proof. reflexivity. Qed.
 Lemma bot_loginAuth_text_ok : C18gen.bot_loginAuth_text = expected_bot_loginAuth_text. Proof. reflexivity. Qed.
+Lemma bot_handleEncryptionRequest_text_ok : C18gen.bot_handleEncryptionRequest_text = expected_bot_handleEncryptionRequest_text. Proof. reflexivity. Qed.
 Lemma user_PublicKey_WriteTo_text_ok : C18gen.user_PublicKey_WriteTo_text = expected_user_PublicKey_WriteTo_text. Proof. reflexivity. Qed.
 Lemma user_PublicKey_ReadFrom_text_ok : C18gen.user_PublicKey_ReadFrom_text = expected_user_PublicKey_ReadFrom_text. Proof. reflexivity. Qed.
-Lemma user_PublicKey_VerifyMessage_text_ok : C18gen.user_PublicKey_VerifyMessage_text = expected_user_PublicKey_VerifyMessage_text. Proof. reflexivity. Qed.
 Lemma user_Property_WriteTo_text_ok : C18gen.user_Property_WriteTo_text = expected_user_Property_WriteTo_text. Proof. reflexivity. Qed.
 Lemma user_Property_ReadFrom_text_ok : C18gen.user_Property_ReadFrom_text = expected_user_Property_ReadFrom_text. Proof. reflexivity. Qed.
 Lemma user_validator_decls_ok : C18gen.user_validator_decls = expected_user_validator_decls. Proof. reflexivity. Qed.
